@@ -27,6 +27,9 @@ type ReorgSyncPlan struct {
 	// checkpointed path (with its cached checkpoint lists); otherwise a
 	// start-up race in the client decides between that and the at-tip path.
 	OldGenesis bool
+	// SameHeight: the new branch ends at the SAME height as the old tip but
+	// carries more work (retargeting preset, faster blocks on the branch).
+	SameHeight bool
 }
 
 // ReorgSyncPlanFromSeed derives a plan (pure function).
@@ -66,6 +69,14 @@ func ReorgSyncPlanFromSeed(seed int64, k int) ReorgSyncPlan {
 		p.Liars = append(p.Liars, netsim.Lie{Kind: kind, Height: 1 + int32(r.Intn(int(p.NewTip)))})
 	}
 	p.OldGenesis = k%3 != 2
+	if k == 3 {
+		// Fixed shape: the first filter round ends exactly on the block tip
+		// (2000), then a heavier branch of the SAME height replaces the last
+		// 500 blocks: the checkpoint list cached in the first round is for
+		// exactly this height, but commits to disconnected blocks.
+		p.FirstTip, p.Fork, p.NewTip, p.Claim, p.FinalTip, p.Honest, p.Liars = 2000, 1500, 2000, 2300, 2305, 1, nil
+		p.OldGenesis, p.SameHeight = true, true
+	}
 	if k == 0 {
 		// Fixed shape: fork below the cached checkpoint, new tip within one
 		// interval of it.
@@ -101,7 +112,11 @@ func RunReorgSync(p ReorgSyncPlan, res *Result) {
 		spacing = 32 // 2700+ blocks then span more than 24 h
 	}
 	span := time.Duration(int64(p.FinalTip+60)*spacing) * time.Second
-	w := NewWorld(Config{Seed: p.Seed, Preset: chaingen.PresetNoRetarget, SpacingSec: spacing, GenesisAgo: span})
+	preset, interval := chaingen.PresetNoRetarget, 0
+	if p.SameHeight {
+		preset, interval = chaingen.PresetRetarget, 16
+	}
+	w := NewWorld(Config{Seed: p.Seed, Preset: preset, Interval: interval, SpacingSec: spacing, GenesisAgo: span})
 	defer w.Cleanup()
 	g := w.G
 	trunk := g.Extend(g.Genesis, int(p.FirstTip), chaingen.PaceNormal)
@@ -154,8 +169,16 @@ func RunReorgSync(p ReorgSyncPlan, res *Result) {
 	// Phase 2: the network reorganises; every peer follows, the peers that
 	// are connected announce the new branch with headers messages.
 	f := first.Ancestor(p.Fork)
-	branch := g.Extend(f, int(p.NewTip-p.Fork), chaingen.PaceNormal)
+	pace := chaingen.PaceNormal
+	if p.SameHeight {
+		pace = chaingen.PaceFast
+	}
+	branch := g.Extend(f, int(p.NewTip-p.Fork), pace)
 	nt := branch[len(branch)-1]
+	if nt.CumWork.Cmp(first.CumWork) <= 0 {
+		res.Inconcl("generated branch is not heavier than the chain it should replace")
+		return
+	}
 	setTip(nt)
 	for _, pr := range w.Peers {
 		if pr.Conn() == nil {
